@@ -314,6 +314,11 @@ impl<'a> Run<'a> {
         let len = self.pool[i].model.len();
         let start = self.pool[i].bs.start();
         let cls = storage_class(&self.pool[i].bs);
+        {
+            // ownership situation of the operand at the moment it is used
+            let coarse = cls.rsplitn(2, '-').nth(1).unwrap_or("").to_string();
+            self.obs.see("storage_classes", &coarse);
+        }
         let op = self.rng.below(14);
         match op {
             0 => {
@@ -462,6 +467,10 @@ impl<'a> Run<'a> {
                 };
                 // storage class as seen by append itself
                 let tail_ref_cls = if move_head { storage_class(&head) } else { cls.clone() };
+                {
+                    let coarse = tail_ref_cls.rsplitn(2, '-').nth(1).unwrap_or("").to_string();
+                    self.obs.see("storage_classes", &coarse);
+                }
                 let head_is_unique = head.verif_storage().0 == 1;
                 self.log.push(format!(
                     "v? = {}v{}.append(v{})   [head {} tail {}]",
